@@ -48,6 +48,17 @@ func Compressed(id int32, payload []byte, compress bool, override bool, declared
 	return append(vi(int32(len(rest))), rest...)
 }
 
+// CompressedBody builds a compression-mode frame around an arbitrary (possibly non-canonical)
+// uncompressed body with an arbitrary declared data length.
+func CompressedBody(body []byte, declaredLen int32) []byte {
+	var zb bytes.Buffer
+	zw := zlib.NewWriter(&zb)
+	zw.Write(body)
+	zw.Close()
+	rest := append(vi(declaredLen), zb.Bytes()...)
+	return append(vi(int32(len(rest))), rest...)
+}
+
 // RawFrame prefixes body with an arbitrary declared total length.
 func RawFrame(declaredTotal int32, body []byte) []byte { return append(vi(declaredTotal), body...) }
 
